@@ -10,11 +10,16 @@ from harness import gen
 from harness.framework import Suite
 
 PID = "C04"
-LEAN_MODS = ["SwcVerif.Props.C04"]
+LEAN_MODS = ["SwcVerif.Props.C04", "SwcVerif.Props.C04Gen"]
+TRANSLATE_ALGO = ["AlgoTraverse"]      # Gen/AlgoTraverse.lean is regenerated from swc_utils/base.py::_traverse_dfs on every run
+DRIVER_FILES = ["SwcVerif/Model/AlgoRun.lean"]
 THEOREMS = [
     "C04.traverse_eq_spec", "C04.fuel_suffices", "C04.outside_untouched",
     "C04.enter_once_per_subtree_node", "C04.leave_once_per_subtree_node",
     "C04.spec_unfold", "C04.specRev_length", "C04.enterOrder_perm", "C04.leaveOrder_perm",
+    # refinement: the definition generated from _traverse_dfs on this run IS the structural recursion
+    "RefineTrav.traverse_refines", "C04.generated_traverse_eq_spec", "C04.generated_eq_model",
+    "C04.generated_enter_once", "C04.generated_leave_once",
 ]
 TRUSTED = ["hand-written model Model/Traverse.lean of _traverse_dfs, tied by the c04.trav correspondence suite"]
 ASSUMPTIONS = [
@@ -180,7 +185,9 @@ class Trav(Suite):
             return []
         n = case["n"]
         line = f"trav ids={gen.ints(range(n))} pids={gen.ints(case['pids'])} root={case['root']}"
-        return [(line, " ".join(res["log"]) + f" ret={res['ret']} stack=0")]
+        want = " ".join(res["log"]) + f" ret={res['ret']} stack=0"
+        # the hand-written step machine AND the definition generated from _traverse_dfs on this run (translator cross-check)
+        return [(line, want), ("g" + line, want)]
 
     def oracle(self, case, res):
         n, pids, root = case["n"], case["pids"], case["root"]
@@ -274,10 +281,14 @@ class NoRecursion(Suite):
 
 SUITES = [Trav(), NoRecursion()]
 
-TECHNIQUE = "Lean 4 theorem: the explicit-stack loop of _traverse_dfs equals structural recursion on Rose (induction, any depth) + differential correspondence of the loop model against swc_utils.traverse / Tree.traverse / Node.traverse"
+TECHNIQUE = ("Lean 4 theorems: _traverse_dfs is TRANSLATED from the current source on every run (harness/translate_algo.py → Gen/AlgoTraverse.lean: children-map loop, "
+             "list-as-stack, the two dictionaries) and proved to be structural recursion on Rose for every tree, depth, numbering, start node and stateful callback pair "
+             "(RefineTrav.traverse_refines, induction over the tree); the hand-written step machine is proved equal to the same recursion; "
+             "+ differential correspondence of both against swc_utils.traverse / Tree.traverse / Node.traverse + call-log oracle")
 LEVEL_TEXT = ("Kernel-checked for every tree shape, depth, distinct numbering, start node and (stateful) callback pair: the model of the "
               "traversal loop terminates after exactly 2·|subtree| iterations with the callback state and return value of structural recursion; "
               "enter/leave exactly once per subtree node and never outside. The model is tied to the code by running both on generated trees "
               "(all three public entry points) and by an oracle that checks the property text directly on the implementation's call log.")
-LEVEL_NOTE = ("Trusted: Lean kernel; hand-written loop model (Model/Traverse.lean) agreeing with the code only on generated inputs; "
+LEVEL_NOTE = ("Trusted: Lean kernel; the imperative translator and its semantics library Model/Py.lean (Python list / dict / loop semantics; cross-checked by running the generated "
+              "definition against the real function); the Node-wrapping glue of Tree.traverse / Node.traverse is tied by correspondence only; "
               "CPython dict/list semantics; recursion limit observed on 2·10^4–10^5-node chains and by an AST check, not proved.")
